@@ -9,6 +9,9 @@ use crate::packet_id;
 use super::pending_packet;
 use super::frame_queue;
 
+#[cfg(uflow_verif)]
+use crate::verif::rand;
+
 #[derive(Debug,PartialEq)]
 pub enum DataPushError {
     SizeLimited,
